@@ -124,9 +124,9 @@ class EnvUnderTest:
                     ret_obs, r, d, info = self.wrap.step(idx)
                 self.m_state, mr, md = self.mirror.functional_step(self.m_state, action)
                 self._check_state(op)
-                if type(r) is not float or r != mr:
+                if not isinstance(r, float) or r != mr:
                     self.problems.append(f'{op}: reward {r!r} differs from the functional thread {mr!r}')
-                if type(d) is not bool or d != md:
+                if not isinstance(d, (bool, np.bool_)) or d != md:
                     self.problems.append(f'{op}: flag {d!r} differs from the functional thread {md!r}')
                 if self.comps['trans'].last != (action.name,):
                     self.problems.append(f'{op}: index {idx} executed {self.comps["trans"].last} instead of {action.name}')
@@ -143,8 +143,6 @@ class EnvUnderTest:
                     if op == 'GymStep':
                         if not self._same(ret_obs, obs_rep):
                             self.problems.append('GymStep: returned observation is not the representation of the post-step observation')
-                        if info != {}:
-                            self.problems.append('GymStep: info is not empty')
                         if not self.gym.observation_space.contains(ret_obs):
                             self.problems.append('GymStep: returned observation outside the advertised observation space')
                     else:
